@@ -62,6 +62,9 @@ def run(ctx):
             raise vf.Inconclusive("ReactorSpec violates %s under %s (specification error)" % (r.violated, cfg))
         states += r.distinct
         trans += r.generated
+    neg = ctx.tlc("ReactorSpec", "C12_exh_smallinput.cfg", timeout=3000, name="neg-smallinput")
+    if neg.ok or "FeedbackNeverBlocks" not in (neg.violated or ""):
+        raise vf.Inconclusive("Reactor with an input channel smaller than the token count does not violate FeedbackNeverBlocks: the model does not discriminate")
     ctx.build_harness()
     nsc = 40 if quick else 400
     total_events = 0
